@@ -5,8 +5,8 @@ import (
 	"fmt"
 	"math/big"
 	"os"
-	"time"
 	"strings"
+	"time"
 
 	"github.com/gmrtd/gmrtd/activeauth"
 	"github.com/gmrtd/gmrtd/chipauth"
@@ -494,7 +494,41 @@ func (r *runner) ecRangeClasses() {
 			}
 		}
 	}
-	c.SecBound(sec, "11 curves x {named, explicit parameters} x (r, s) each in {0, 1, n-1, n, n+1, p, 2^k-1, 2^(8len)-1, n/2, and n, n+1, n-1 of every other curve of the same size}: cms.VerifySignature (DER) and activeauth.ValidateActiveAuthSignature (DER and plain); 11 non-integer-pair signature shapes per key; RSA-1024/2048: representative in {0, 1, N-1, N, N+1, 2^(8len)-1, N/2} x width {len-1, len, len+1, 1} for PKCS#1 v1.5, PSS and AA")
+	// RSA keys of adversarial shape: modulus of every size class (also even), exponent up to the largest the key type can hold
+	// (larger moduli only make the cubic cost of modular exponentiation visible - 0.6 s at 16 KiB - which the 20 s
+	// horizon is not meant to judge)
+	sizes := []int{128, 129, 256, 1024, 4096, 16384}
+	rsaOID := []int{1, 2, 840, 113549, 1, 1, 1}
+	for _, nb := range sizes {
+		for _, e := range []int64{3, 65537, 1<<31 - 1, 1<<62 + 1} {
+			for _, even := range []bool{false, true} {
+				if !c.Mine() {
+					continue
+				}
+				nBytes := bytesOf(0xA5, nb)
+				nBytes[0] = 0xC3
+				nBytes[nb-1] = 0x0B
+				if even {
+					nBytes[nb-1] = 0x0A
+				}
+				N := new(big.Int).SetBytes(nBytes)
+				spki := refpki.DER(refpki.Seq(refpki.Seq(refpki.OID(rsaOID), refpki.Null()), refpki.BitString(refpki.DER(refpki.Seq(refpki.Int(N), refpki.Int64(e))))))
+				dg15 := append(append([]byte{0x6F}, berLen(len(spki))...), spki...)
+				for _, sg := range [][]byte{bytesOf(0x5A, nb), bytesOf(0xFF, nb), {0x02}} {
+					if len(dg15)+len(sg) > 64<<10 {
+						sg = sg[:1]
+					}
+					cl := fmt.Sprintf("rsa-key-shape:%d-byte-modulus", nb)
+					r.doClass(sec, epA, joinPair(dg15, sg), cl)
+					if len(spki)+len(sg) < 65000 {
+						r.doClass(sec, mustEP("cms.VerifySignature/sha256WithRSA"), joinPair(spki, sg), cl)
+						r.doClass(sec, mustEP("cms.VerifySignature/rsassa-pss"), joinPair(spki, sg), cl)
+					}
+				}
+			}
+		}
+	}
+	c.SecBound(sec, "11 curves x {named, explicit parameters} x (r, s) each in {0, 1, n-1, n, n+1, p, 2^k-1, 2^(8len)-1, n/2, and n, n+1, n-1 of every other curve of the same size}: cms.VerifySignature (DER) and activeauth.ValidateActiveAuthSignature (DER and plain); 11 non-integer-pair signature shapes per key; RSA-1024/2048: representative in {0, 1, N-1, N, N+1, 2^(8len)-1, N/2} x width {len-1, len, len+1, 1} for PKCS#1 v1.5, PSS and AA; RSA keys with a modulus of 128, 129, 256, 1024, 4096, 16384 bytes, odd and even, x exponent {3, 65537, 2^31-1, 2^62+1} x 3 signatures")
 }
 
 // ---- 3h CBOR grammar ----
